@@ -4,30 +4,39 @@ import OxyModel.Model.ConnLimit
 /-! Driver for the C04 protocol (see `harness/cmd/c04`): runs `ConnLimit.step` — the definition the
 C04 theorems (and `conn_noninterference`) are about.
 
-    cfg max=<int> [ext=custom|builtin]
-    start <id> <src> [amt=<int>] [err=1]   -> admitted | 429 | err 500 | dup
-    finish <id> normal|panic               -> released | unknown
+    cfg max=<int> [ext=custom|builtin] [slowreject=1]
+    start <id> <src> [amt=<int>] [err=1]   -> admitted | 429 | rejecting | err 500 | dup
+    finish <id> normal|panic               -> released | rejected-done | unknown
+    pstart <n> <src> <prefix>              -> admitted=<a> rejected=<r> | admitted=<a> rejecting=<r> | dup
     inflight <src>                         -> <n>
+
+`pstart`: `n` (1..64) simultaneous arrivals of one source, ids `<prefix>0 … <prefix>(n-1)`; the model
+takes them as `n` atomic steps in id order (`ConnLimit.burstEvents`) and prints the counts.
 -/
 open ConnLimit
 
 namespace DriverC04
 
 structure St where
-  sys : Sys
+  sys : SysR
   builtin : Bool
 
-def outStr : Out → String
-  | .admitted => "admitted"
-  | .rejected => "429"
-  | .extractErr => "err 500"
-  | .released => "released"
-  | .dup => "dup"
-  | .unknown => "unknown"
+def outStr : OutR → String
+  | .base .admitted => "admitted"
+  | .base .rejected => "429"
+  | .base .extractErr => "err 500"
+  | .base .released => "released"
+  | .base .dup => "dup"
+  | .base .unknown => "unknown"
+  | .rejecting => "rejecting"
+  | .rejectedDone => "rejected-done"
 
 def apply (st : St) (e : Event) : St × String :=
-  let r := step st.sys e
+  let r := stepR st.sys e
   ({ st with sys := r.1 }, outStr r.2)
+
+def inUse (s : SysR) (id : String) : Bool :=
+  (findReq s.base.inflight id).isSome || (findRej s.rejecting id).isSome
 
 def step (st : St) : List String → St × String
   | "start" :: id :: src :: opts =>
@@ -43,7 +52,19 @@ def step (st : St) : List String → St × String
       | some a => apply st (.start id src a)
   | ["finish", id, "normal"] => apply st (.finish id .normal)
   | ["finish", id, "panic"] => apply st (.finish id .panic)
-  | ["inflight", src] => (st, toString (inflightCount st.sys.inflight src))
+  | ["pstart", n, src, pre] =>
+    match n.toNat? with
+    | none => (st, "bad-op")
+    | some n =>
+      if n = 0 || n > 64 then (st, "bad-op") else
+      let evs := burstEvents pre src 1 n
+      if evs.any (fun e => match e with | .start id _ _ => inUse st.sys id | _ => false) then (st, "dup") else
+      let os := outsR st.sys evs
+      let a := os.count (.base .admitted)
+      let r := os.count (.base .rejected) + os.count .rejecting
+      ({ st with sys := runR st.sys evs },
+        "admitted=" ++ toString a ++ (if st.sys.slow then " rejecting=" else " rejected=") ++ toString r)
+  | ["inflight", src] => (st, toString (inflightCount st.sys.base.inflight src))
   | _ => (st, "bad-op")
 
 def init (f : List String) : St × String :=
@@ -51,7 +72,7 @@ def init (f : List String) : St × String :=
     | some v => v.toInt?.getD 0
     | none => 0
   let b := Driver.kv f "ext" == some "builtin"
-  (⟨Sys.init mx, b⟩, "ok")
+  (⟨SysR.init mx (Driver.kv f "slowreject" == some "1"), b⟩, "ok")
 
 def machine : Driver.Machine St where
   init := init
